@@ -94,6 +94,38 @@ func registerStoreModels() {
 		p := term(a[1])
 		return m.newIter("prefix", func(k *Term) *Term { return App(SBool, "pfx", k, p) })
 	}
+	// prefix.NewStore(parent, p): a view of the keys with prefix p; its iterators hand out the keys with the prefix stripped
+	models["cosmossdk.io/store/prefix.NewStore"] = func(m *Machine, _ *Frame, _ *ssa.CallCommon, a []Val) Val {
+		aStore(m)
+		m.E.Assume("A-PREFIXSTORE", "store/prefix.Store over the module store: Iterator(nil, nil) enumerates exactly the present keys with the prefix, ascending (ReverseIterator descending), and hands out each key with the prefix removed (kstrip); a non-nil start/end bound selects an unspecified subset")
+		return &OpaqueV{Tag: "prefixstore", X: term(a[1])}
+	}
+	pfxIter := func(reverse bool) ModelFn {
+		return func(m *Machine, _ *Frame, _ *ssa.CallCommon, a []Val) Val {
+			var p *Term
+			switch r := a[0].(type) {
+			case *OpaqueV:
+				p = r.X.(*Term)
+			case *IfaceV:
+				p = r.V.(*OpaqueV).X.(*Term)
+			}
+			D := m.E.D
+			D.Fun("kstrip", []Sort{SBytes, SBytes}, SBytes)
+			D.Fun("kbound", []Sort{SBytes, SBytes, SBytes}, SBool)
+			D.Axiom("(forall ((x Bytes)) (! (kbound x bnil bnil) :pattern ((kbound x bnil bnil))))")
+			lo, hi := bytesOrNil(a[1]), bytesOrNil(a[2])
+			it := m.newIterOrd("prefixstore", func(k *Term) *Term {
+				return And(App(SBool, "pfx", k, p), App(SBool, "kbound", App(SBytes, "kstrip", p, k), lo, hi))
+			}, reverse)
+			st := m.Heap[it.(*IterV).Cell].(*IterState)
+			ns := *st
+			ns.Strip = p
+			m.Heap[it.(*IterV).Cell] = &ns
+			return it
+		}
+	}
+	invokeModels["prefixstore.Iterator"] = pfxIter(false)
+	invokeModels["prefixstore.ReverseIterator"] = pfxIter(true)
 	models[pkgStoreT+".PrefixEndBytes"] = func(m *Machine, _ *Frame, _ *ssa.CallCommon, a []Val) Val {
 		aStore(m)
 		m.E.D.Fun("pfxend", []Sort{SBytes}, SBytes)
@@ -121,6 +153,17 @@ func (m *Machine) writeStore(k, v *Term) {
 
 // newIter creates a snapshot iterator over the keys of the current store that satisfy match (A-ITER).
 func (m *Machine) newIter(kind string, match func(k *Term) *Term) Val {
+	return m.newIterOrd(kind, match, false)
+}
+
+func bytesOrNil(v Val) *Term {
+	if _, ok := v.(*NilV); ok {
+		return bnil()
+	}
+	return term(v)
+}
+
+func (m *Machine) newIterOrd(kind string, match func(k *Term) *Term, reverse bool) Val {
 	E := m.E
 	E.Assume("A-ITER", "store iterators enumerate, in ascending byte order and exactly once each, the keys present at creation time that lie in the prefix/range (cachekv snapshot semantics); Close is dropped")
 	snap := m.S()
@@ -137,9 +180,14 @@ func (m *Machine) newIter(kind string, match func(k *Term) *Term) Val {
 	kk := T(SBytes, "k")
 	m.AssumeT(T(SBool, fmt.Sprintf("(forall ((k Bytes)) (! (=> (and (not (= (select %s k) bnil)) %s) (and (<= 0 (%s k)) (< (%s k) %s) (= (select %s (%s k)) k))) :pattern ((%s k)) :pattern ((select %s k))))",
 		snap.S, match(kk).S, idx, idx, n.S, keys.S, idx, idx, snap.S)))
-	// ascending order
-	m.AssumeT(T(SBool, fmt.Sprintf("(forall ((i Int) (j Int)) (! (=> (and (<= 0 i) (< i j) (< j %s)) (klt (select %s i) (select %s j))) :pattern ((select %s i) (select %s j))))",
-		n.S, keys.S, keys.S, keys.S, keys.S)))
+	// ascending order (descending for a reverse iterator)
+	if reverse {
+		m.AssumeT(T(SBool, fmt.Sprintf("(forall ((i Int) (j Int)) (! (=> (and (<= 0 i) (< i j) (< j %s)) (klt (select %s j) (select %s i))) :pattern ((select %s i) (select %s j))))",
+			n.S, keys.S, keys.S, keys.S, keys.S)))
+	} else {
+		m.AssumeT(T(SBool, fmt.Sprintf("(forall ((i Int) (j Int)) (! (=> (and (<= 0 i) (< i j) (< j %s)) (klt (select %s i) (select %s j))) :pattern ((select %s i) (select %s j))))",
+			n.S, keys.S, keys.S, keys.S, keys.S)))
+	}
 	st := &IterState{Snap: snap, Keys: keys, N: n, Pos: IntLit(0), Idx: idx, Kind: kind, Match: match}
 	id := m.NewCell(st)
 	return &IterV{Cell: id}
@@ -161,6 +209,9 @@ func (m *Machine) iterMethod(it *IterV, meth string, args []Val) Val {
 		return &TupleV{}
 	case "Key":
 		m.safeSite("iterkey", Lt(st.Pos, st.N), "Iterator.Key panics when the iterator is not valid")
+		if st.Strip != nil {
+			return App(SBytes, "kstrip", st.Strip, Select(st.Keys, st.Pos))
+		}
 		return Select(st.Keys, st.Pos)
 	case "Value":
 		m.safeSite("iterval", Lt(st.Pos, st.N), "Iterator.Value panics when the iterator is not valid")
